@@ -98,20 +98,35 @@ type Op struct {
 
 var errInjectedBackoff = errors.New("injected back-off failure")
 
+var backoffSeq int // alternates between an own and the library's back-off; no effect on the outcome of a correct call
+
 // backoffFor returns the context and back-off of a Multi call: never failing, or failing at the FailAt-th call.
 func backoffFor(failAt int) (context.Context, klevdb.DeleteMultiBackoff, func()) {
 	ctx, cancel := context.WithCancel(context.Background())
+	// the library's own back-off (a wait that a cancelled context ends) in half of the calls
+	backoffSeq++
+	lib := backoffSeq%2 == 0
+	wait := klevdb.DeleteMultiWithWait(time.Microsecond)
 	if failAt <= 0 {
+		if lib {
+			return ctx, wait, cancel
+		}
 		return ctx, noBackoff, cancel
 	}
 	calls := 0
 	return ctx, func(c context.Context) error {
 		calls++
 		if calls < failAt {
+			if lib {
+				return wait(c)
+			}
 			return nil
 		}
 		if failAt%2 == 0 {
 			cancel()
+			if lib {
+				return klevdb.DeleteMultiWithWait(time.Hour)(c) // must return at once: the context is cancelled
+			}
 			return c.Err()
 		}
 		return errInjectedBackoff
@@ -450,6 +465,9 @@ func (e *Env) applyPublish(op Op) {
 		}
 		msgs[i] = m
 	}
+	if len(msgs) == 0 && e.Step%2 == 0 {
+		msgs = nil // "any batch size incl. 0": the nil slice is one
+	}
 	var before []string
 	if e.own("version") {
 		before, _ = listLogs(e.Dir)
@@ -651,6 +669,9 @@ func (e *Env) offsetsAsMessages(offs map[int64]struct{}) []klevdb.Message {
 
 func (e *Env) applyDelete(op Op) {
 	set := offsetSet(op.Offsets)
+	if len(set) == 0 && e.Step%2 == 0 {
+		set = nil // "an empty set": the nil map is one
+	}
 	pre := e.M.Clone()
 	var segsBefore []SegInfo
 	if e.own("delete") || e.own("version") {
